@@ -13,16 +13,17 @@ import (
 )
 
 type Result struct {
-	Obl    *Obl
-	Status string // unsat sat unknown timeout error
-	Solver string
-	Secs   float64
-	File   string
-	Output string
-	Size   int
-	OK     bool // obligation discharged (or cover not refuted)
-	Tried  []string
-	Part   int
+	Obl            *Obl
+	Status         string // unsat sat unknown timeout error
+	Solver         string
+	Secs           float64
+	File           string
+	Output         string
+	Size           int
+	OK             bool // obligation discharged (or cover not refuted)
+	Tried          []string
+	Part           int
+	reCode, reSpec string // regexp obligations: the two expressions compared
 }
 
 func (fe *FnEnc) query(o *Obl, withModel bool) string { return fe.queryPart(o, -1, withModel) }
